@@ -3,6 +3,7 @@ import AdeuModel.Lemmas.Mapper
 import AdeuModel.Lemmas.ExtractDoc
 import AdeuModel.Lemmas.MetaIds
 import AdeuModel.Lemmas.ExtractTags
+import AdeuModel.Lemmas.MetaComments
 /-
 C04 — the text projection is complete, ordered and correctly annotated.
 Statements about `Adeu.Doc.extractText`, the model of `extract_text_from_stream`.
@@ -69,6 +70,14 @@ theorem C04_block_lists_open_changes_once (cm : CMap) (states : List Snap) :
     (chgIds states).Nodup ∧ (chgLines states).length = (chgIds states).length ∧
     ∀ id, id ∈ chgIds states ↔ ∃ s ∈ states, id ∈ (s.ins ++ s.del).map (·.1) :=
   ⟨metaBlock_chgLines cm states, chgIds_spec states⟩
+
+/-- … and its comment lines (the second part of the same `joinWith`) hold a line `[Com:id] …` for every comment that one of
+the block's snapshots has open and that the comment map knows; replies follow their parent (C10_reply_shown_with_thread).
+With C04_listed_marks_are_those_open_at_text: a comment anchored on a text-carrying run is listed behind that text. -/
+theorem C04_block_lists_anchored_comments (cm : CMap) (states : List Snap) (s : Snap) (hs : s ∈ states) (cid : Str)
+    (hc : cid ∈ s.comments) (d : CData) (hd : cmGet cm cid = some d) :
+    ∃ l ∈ (states.foldl (metaStep cm) ([], [], [])).2.1, comHead cid <+: l :=
+  metaBlock_lists_comment cm states s hs cid hc d hd
 
 /-- Resolving every annotation of the raw view as 'accept' gives the accepted view, character for character. -/
 theorem C04_accept_raw_eq_clean (cm : CMap) (p : Para) : acceptView (rawSegs cm p) = paraText true cm p :=
@@ -165,5 +174,34 @@ theorem C04_deleted_only_container_counterexample :
     decide +kernel
   · rw [deletedOnlyDoc_texts.1, deletedOnlyDoc_texts.2]
     decide +kernel
+
+/-! ### the other two open findings, as theorems about the model (witnesses replayed on the implementation) -/
+
+def plainRun (s : String) : Run := { b := none, i := none, rest := [], ch := [.t s.toList] }
+def cellP (vm : VM) (s : String) : Cell :=
+  .mk [] 1 vm [.para { style := none, ppr := [], nodes := if s.isEmpty then [] else [.run (plainRun s)] }]
+
+/-- a 2 x 2 table whose first column is vertically merged: the merged cell holds "Alpha" once -/
+def vmergeDoc : Document :=
+  { headers := [], footers := [], titlePg := false, evenOdd := false, comments := [], commentsEx := [], hasExtended := false,
+    body := [.table [] [] [.mk [] [cellP .restart "Alpha", cellP .none "Beta"], .mk [] [cellP .continue_ "", cellP .none "Gamma"]]] }
+
+/-- F-vmerge-dup: "every visible character exactly once" fails for vertically merged cells - the reader (like
+python-docx's `row.cells`) presents the merged cell once per spanned row. -/
+theorem C04_vmerge_duplicate_counterexample : extractText true vmergeDoc = "Alpha | Beta\nAlpha | Gamma".toList := by
+  simp only [extractText, docParts, vmergeDoc, cellP, plainRun, storyOf, List.find?, tableText, rowsCellTexts, cellsTexts,
+    blocksText, containerText, List.map, List.filter, List.nil_append, List.append_nil, Bool.false_eq_true, ↓reduceIte]
+  decide +kernel
+
+/-- a comment range that encloses no run (a point comment), with its reference run -/
+def pointPara : Para :=
+  { style := none, ppr := [], nodes := [.run (plainRun "Before "), .cs "5".toList, .ce "5".toList,
+      .run { b := none, i := none, rest := [], ch := [.cref "5".toList] }, .run (plainRun "after")] }
+
+/-- F-point-comment: the comment is anchored in the text but neither shown nor listed - no text-carrying run lies inside
+its range, and identifiers are listed only through such runs (C04_listed_marks_are_those_open_at_text). -/
+theorem C04_point_comment_counterexample :
+    paraText false [("5".toList, ⟨"Q7".toList, "note".toList, [], false, none⟩)] pointPara = "Before after".toList := by
+  decide
 
 end Adeu.Props.C04
